@@ -300,6 +300,155 @@ def worker(args):
     return viol, dict(stats), inconc
 
 
+# ------------------------------------------------------------------------------------------------ manager-level requests
+
+PUBSUB = "pubsub.example.org"
+MGR_KINDS = {
+    # kind: (managers to load, addressee the manager will use, namespace of a plausible result payload)
+    "discoInfo": ([], "bob@example.org/phone", "http://jabber.org/protocol/disco#info"), "discoItems": ([], "conference.example.org", "http://jabber.org/protocol/disco#items"),
+    "fetchVCard": ([], "bob@example.org", "vcard-temp"), "setVCard": ([], None, None), "entityTime": (["time"], "bob@example.org/phone", "urn:xmpp:time"),
+    "mamRetrieve": (["mam"], None, "urn:xmpp:mam:2"), "blocklist": (["blocking"], None, "urn:xmpp:blocking"), "block": (["blocking"], None, None), "unblock": (["blocking"], None, None),
+    "extServices": (["extdisco"], "example.org", "urn:xmpp:extdisco:2"), "rosterAdd": ([], None, None), "rosterRemove": ([], None, None), "rosterRename": ([], None, None),
+    "uploadSlot": (["uploadrequest"], "upload.example.org", "urn:xmpp:http:upload:0"),
+    "tuneRequest": (["pubsub", "tune"], "bob@example.org", "http://jabber.org/protocol/pubsub"), "locationRequest": (["pubsub", "location"], "bob@example.org", "http://jabber.org/protocol/pubsub"),
+}
+for k in ("psNodes", "psCreate", "psCreateInstant", "psDelete", "psItemIds", "psItems", "psItem", "psPublish", "psRetract", "psPurge", "psSubscriptions", "psAffiliations", "psNodeAffiliations", "psOptions",
+          "psNodeConfig", "psSubscribe", "psUnsubscribe"):
+    MGR_KINDS[k] = (["pubsub"], PUBSUB, "http://jabber.org/protocol/pubsub")
+for k in ("mixChannelJids", "mixChannelNodes", "mixConfig", "mixInfo", "mixJoin", "mixLeave", "mixNick", "mixParticipants", "mixCreate", "mixDelete", "mixAllowed", "mixBan"):
+    MGR_KINDS[k] = (["pubsub", "mix"], "channel@mix.example.org" if k not in ("mixChannelJids", "mixCreate") else "mix.example.org", "http://jabber.org/protocol/pubsub")
+
+
+def mgr_payloads():
+    """result payloads lifted from the corpus by namespace of the first child, plus generic ones"""
+    from xml.dom import minidom
+    out = collections.defaultdict(list)
+    for l in open(os.path.join(vf.VERIF, "corpus", "seeds.jsonl")):
+        o = json.loads(l)
+        if o["root"] != "iq":
+            continue
+        try:
+            d = minidom.parseString(o["xml"].encode("utf8")).documentElement
+        except Exception:
+            continue
+        kids = [c for c in d.childNodes if c.nodeType == 1 and c.localName != "error"]
+        if kids and len(out[kids[0].namespaceURI]) < 12:
+            x = "".join(k.toxml() for k in kids)
+            if len(x) < 4000:
+                out[kids[0].namespaceURI].append(x)
+    return out
+
+
+def mgr_session(kind, scenario, payload):
+    managers, to, ns = MGR_KINDS[kind]
+    addressee = to or wire.BARE
+    steps = [wire.client(managers=managers)] + wire.login_sasl(sm=False) + [dict(op="wait_signal", name="connected")]
+    st = dict(op="mgr", kind=kind, rid="m1")
+    if to:
+        st["to"] = to
+    steps.append(st)
+    steps.append(wire.A("iq", optional=True, timeout=1500))
+
+    def reply(frm, typ="result", body=payload):
+        fa = "" if frm is None else " from='%s'" % frm
+        if typ == "error":
+            body = "<error type='cancel'><item-not-found xmlns='urn:ietf:params:xml:ns:xmpp-stanzas'/></error>"
+        return wire.S("<iq type='%s' id='$ID'%s>%s</iq>" % (typ, fa, body))
+    real_from = to if to else None     # requests to the own account are answered without from (or from the bare JID)
+    steps.append(dict(op="mark", name="before"))
+    if scenario == "result":
+        steps.append(reply(real_from))
+    elif scenario == "error":
+        steps.append(reply(real_from, "error"))
+    elif scenario == "twice":
+        steps += [reply(real_from), reply(real_from)]
+    elif scenario == "stranger-first":
+        steps.append(reply("mallory@evil.example/x"))
+        steps.append(dict(op="fence"))
+        steps.append(dict(op="mark", name="after-stranger"))
+        steps.append(reply(real_from))
+    elif scenario == "lookalike-first":
+        la = (addressee.split("/")[0] + ".evil.example") if "/" not in addressee else addressee.replace("example.org", "example.org.evil.example")
+        steps.append(reply(la))
+        steps.append(dict(op="fence"))
+        steps.append(dict(op="mark", name="after-stranger"))
+        steps.append(reply(real_from, "error"))
+    elif scenario == "silence":
+        pass
+    steps.append(dict(op="fence"))
+    # multi-step managers may have sent a follow-up request: the end of the session releases everything
+    steps.append(dict(op="mark", name="closing"))
+    steps.append(dict(op="disconnect"))
+    steps.append(dict(op="wait_signal", name="disconnected"))
+    steps.append(dict(op="settle", quiet=10))
+    return dict(steps=steps, timeout=4000)
+
+
+def mgr_worker(args):
+    wid, jobs = args
+    binary = vf.build_harness("wire")
+    outs, crashes = wire.run_cases(binary, [mgr_session(*j) for j in jobs])
+    viol, stats, inconc = [], collections.Counter(), []
+    for rq, info in crashes:
+        j = jobs[rq["n"]] if rq.get("n") is not None else ("?", "?", "")
+        viol.append(("manager crash %s %s" % (j[0], vf.crash_sig(info)), "sanitizer report / abnormal exit while a manager request was answered", {"kind": j[0], "scenario": j[1], "payload": j[2][:3000], "stderr": info["stderr"][-3000:]}))
+    for out, (kind, scenario, payload) in zip(outs, jobs):
+        if not out:
+            continue
+        j = out["journal"]
+        if not any(e["ev"] == "mgr_call" for e in j) or any(e["ev"] == "bad_step" for e in j):
+            inconc.append("manager request %s was not issued: %s" % (kind, [e for e in j if e["ev"] in ("bad_step", "await_failed")][:2]))
+            continue
+        stats["manager_requests"] += 1
+        seg, dones = "start", []
+        for e in j:
+            if e["ev"] == "mark":
+                seg = e["name"]
+            elif e["ev"] == "mgr_done":
+                dones.append((seg, e))
+        w = {"kind": kind, "scenario": scenario, "payload": payload[:1500], "completions": [(s_, {k: e.get(k) for k in ("count", "outcome", "text")}) for s_, e in dones],
+             "client_sent": [e.get("xml", "")[:300] for e in wire.srv_rx(j) if e["tag"] == "iq"][:6]}
+        if not dones:
+            viol.append(("manager never-completed %s %s" % (kind, scenario), "a manager request was still pending after the client disconnected for good", w))
+        elif len(dones) > 1 or dones[0][1]["count"] != 1:
+            viol.append(("manager completed-%d-times %s" % (len(dones), kind), "the task of a manager request finished more than once", w))
+        elif scenario in ("stranger-first", "lookalike-first") and dones[0][0] == "before":
+            viol.append(("manager completed-by-wrong-sender %s %s" % (kind, scenario), "a reply from an entity other than the addressee finished a manager request", w))
+        else:
+            stats["manager_completed_once"] += 1
+            stats["manager_outcome:" + dones[0][1]["outcome"]] += 1
+            if dones[0][0] in ("before", "after-stranger"):
+                stats["manager_completed_by_reply"] += 1
+    return viol, dict(stats), inconc
+
+
+def manager_part(V, tier):
+    r = vf.rng("c07-mgr")
+    pay = mgr_payloads()
+    jobs = []
+    scen = ["result", "error", "twice", "stranger-first", "lookalike-first", "silence"]
+    for kind, (_, to, ns) in MGR_KINDS.items():
+        cands = ["", "<unknown xmlns='urn:example:unknown'><x/></unknown>"] + pay.get(ns, [])
+        if ns == "urn:xmpp:mam:2":
+            cands.append("<fin xmlns='urn:xmpp:mam:2' complete='true'><set xmlns='http://jabber.org/protocol/rsm'><count>0</count></set></fin>")
+        for sc in scen:
+            ps = cands if sc in ("result", "stranger-first") and tier != "quick" else [r.choice(cands)] + ([cands[-1]] if sc == "result" and len(cands) > 2 else [])
+            for p in ps:
+                jobs.append((kind, sc, p))
+    W = vf.NPROC
+    with ProcessPoolExecutor(max_workers=W) as pool:
+        res = list(pool.map(mgr_worker, [(w, jobs[w::W]) for w in range(W)]))
+    stats = collections.Counter()
+    for viol, st, inconc in res:
+        for sig, what, w in viol:
+            V.violation(sig, what, w)
+        for i in inconc:
+            V.inconc(i)
+        stats.update(st)
+    stats["manager_kinds"] = len(MGR_KINDS)
+    return stats
+
+
 def main(tier, replay=None):
     V = vf.Verdict("C07", tier)
     vf.build_harness("wire")
@@ -322,10 +471,13 @@ def main(tier, replay=None):
         for i in inconc:
             V.inconc(i)
         stats.update(st)
-    cov = {"evaluations": stats["requests"], "distinct_nontrivial": stats["completed_as_modelled"],
+    stats.update(manager_part(V, tier))
+    cov = {"evaluations": stats["requests"] + stats["manager_requests"], "distinct_nontrivial": stats["completed_as_modelled"] + stats["manager_completed_once"],
+           "manager_level": "%d task-returning manager APIs (discovery, vCard, entity time, MAM, blocking, external services, roster edits, upload slots, 18 pubsub, 12 MIX, PEP tune/location) x {result with payloads lifted from the corpus / generic / empty, "
+                            "error, duplicate reply, reply from a stranger or a look-alike domain first, silence} ; every session ends with a final disconnect; oracle: the task finishes exactly once, never on the foreign reply" % len(MGR_KINDS),
            "rule": "histories over {request(6 addressee classes, optionally re-entering the client from its continuation: new request / disconnect), reply(result|error|malformed|request-with-same-id, outstanding or unknown id, 10 sender classes, once/twice), "
                    "connection loss (resumable), disconnect, reconnect (resumed|new)} with up to 4 requests outstanding: exhaustive words of length <= %d starting with a request over an %d-letter alphabet, plus random words up to length 30; "
                    "every history ends with a non-resumable close; each request's continuation count and value are compared with a request model with accept sets (addressee, absent from) and don't-care classes (case variants, own domain for own account)" % (depth, len(A)),
            "observed": dict(stats), "exhaustive_words": len(words), "samples": [{"word": [list(x) for x in words[min(len(words) - 1, 700)]]}]}
-    floors = {"requests": stats["requests"] > 1000, "results": stats["kind:result"] > 0, "errors": stats["kind:error"] > 0, "nested": stats["nested"] > 0}
+    floors = {"requests": stats["requests"] > 1000, "results": stats["kind:result"] > 0, "errors": stats["kind:error"] > 0, "nested": stats["nested"] > 0, "manager_requests": stats["manager_requests"] >= 200, "manager_by_reply": stats["manager_completed_by_reply"] >= 100}
     V.finish(cov, "exploration", ["a stanza without from is taken to come from the user's own server (a contact cannot forge that)", "loopback TCP with fences; manager request APIs are covered by the second part when present"], floors)
